@@ -319,11 +319,25 @@ def run(ctx):
         v, f = ev.call_function('__main__.file_', [val])
         nl = normal_leaves(v)
         ob.require(len(nl) >= 1, 'file_ can accept a path', fi.where)
+        def _method_fact(known, name, positive):
+            for k in known:
+                g = k[2] if T.is_op(k, 'NOT') else k
+                neg = T.is_op(k, 'NOT')
+                if T.is_op(g, 'BOOL'):
+                    g = g[2]
+                if T.is_op(g, 'METHOD') and g[3] == T.const(name) and neg != positive:
+                    return True
+                if T.is_op(g, 'EXTCALL') and g[2] == T.const(name) and neg != positive:
+                    return True
+            return False
         for cs, leaf in nl:
-            txt = ' '.join(T.show(x, maxdepth=6) for x in known_at(f, cs))
-            ob.require("NOT(BOOL(METHOD(" in txt and "'exists'" in txt, 'file_ accepts a path without having checked that it does not exist',
-                       fi.where, found=txt[:300])
-            ob.require("'is_dir'" in txt, 'file_ accepts a path without having checked that it is not a directory', fi.where)
+            known = known_at(f, cs)
+            ob.require(_method_fact(known, 'exists', False), 'file_ accepts a path without having established that it does not exist '
+                       '(an existing file would be overwritten)', fi.where, found=[T.show(x, maxdepth=4) for x in known][:6])
+            ob.require(_method_fact(known, 'is_dir', False), 'file_ accepts a path without having established that it is not a directory',
+                       fi.where, found=[T.show(x, maxdepth=4) for x in known][:6])
+            ob.require(_method_fact(known, 'os.access', True), 'file_ accepts a path whose parent directory was not checked to be writable',
+                       fi.where, found=[T.show(x, maxdepth=4) for x in known][:6])
             same_term(ob, leaf, val, 'file_ returns the path unchanged', fi.where)
         only_argerror(ob, v, fi.where, 'file_')
     # ---------------------------------------------------------------- who writes to stdout / creates files
